@@ -66,6 +66,9 @@ func (ld *LineDiscount) IsEmpty() bool {
 func CleanLineDiscounts(lines []*LineDiscount) []*LineDiscount {
 	var cleaned []*LineDiscount
 	for _, d := range lines {
+		if d == nil {
+			continue
+		}
 		if d.IsEmpty() {
 			continue
 		}
